@@ -9,7 +9,7 @@ A = dict(
     A7="A7 Lagrange in Fq12*: f != 0 => f^(q^12-1) = 1",
     A8="A8 Euler's criterion in Fq / Fq2",
     D_FQ="contracts of Fq (add/sub/mul/square/negate/double/inverse/is_zero/eq, canonical range) enter this unit as stubs over an abstract value; they are the statements proved in unit mont (C08) "
-         "for the real derive-generated code with value mv(x) = limbs * R^-1 mod q - except inverse (and pow / sqrt / legendre where used), which remain assumed",
+         "for the real derive-generated code with value mv(x) = limbs * R^-1 mod q (inverse: partial correctness) - except pow / sqrt / legendre where used, which remain assumed",
     TOOLS="Verus 0.2026.09.13 + Z3 4.16, rustc -Zunpretty=expanded and its pretty printer, the slicing/weaving rules R0-R7 of DESIGN.md 2.2",
 )
 
@@ -189,8 +189,10 @@ PROPS = {
               "k_i = r_i * INV making the low limb vanish; INV * q[0] == -1 mod 2^64 and the final carry is proved 0); with mv(x) = limbs(x) * R^-1 mod q the field value: "
               "mul_assign / square give mv(a) mv(b) mod q, add_assign / sub_assign / double / negate give the sum / difference / double / negation mod q, zero() and one() are 0 and 1, "
               "is_zero and == decide mv == 0 resp. equality of values, into_repr returns the canonical integer mv(x) (< q), from_repr(r) succeeds exactly for r < q with mv == r, "
-              "cmp is the order of the canonical integers. These are the contracts (D_FQ) every unit above the limb layer assumes of Fq / Fr.",
-        not_covered=["inverse (binary extended Euclid), pow / sqrt / legendre (ff's generic square-and-multiply over the exponent words), random, read/write_be/le: not under contract (assumed where used: A8, D1)",
+              "cmp is the order of the canonical integers; inverse (binary extended Euclid, loop invariant b * a == u * R^2 and c * a == v * R^2 mod q, kept as an opaque predicate) returns None exactly for 0 "
+              "and otherwise y with mv(y) mv(x) == 1 mod q (partial correctness: termination of the Euclid loops needs q prime, A1, and is not proved). "
+              "These are the contracts (D_FQ) every unit above the limb layer assumes of Fq / Fr.",
+        not_covered=["termination of inverse (needs gcd(a, q) = 1, i.e. A1)", "pow / sqrt / legendre (ff's generic square-and-multiply over the exponent words), random, read/write_be/le: not under contract (assumed where used: A8, D1)",
                      "the values of GENERATOR, ROOT_OF_UNITY (MODULUS, R, R2, INV, B_COEFF, NEGATIVE_ONE and the from_okm shift constants ARE checked: unit consts resp. by(compute) in unit mont)"],
         assumptions=["Kani 0.68 / CBMC 6.11; the unsafe transmute constructor pairing::bls12_381::transmute::{fq, fr} and mem::transmute_copy are used to move raw limbs in and out", "rustc codegen (MIR -> goto)",
                      "unit mont sees the representation type through the limb-level contracts that kani:limbs proves (lt / gt / eq / cmp = integer order, add_nocarry, sub_noborrow, mul2, is_zero, From<u64>), and ff's mac_with_carry / adc through theirs",
